@@ -48,7 +48,7 @@ def call_wops(opline):
     """'batch p<k>:<valtok>,d<k> <sync>' -> (wops text, sync)"""
     a = opline.split(' ')
     out = []
-    for t in a[1].split(','):
+    for t in ([] if a[1] in ('.', '') else a[1].split(',')):
         if t[0] == 'p':
             k, v = t[1:].split(':', 1)
             out.append('p%s:%s' % (k, vtok(pattern(v))))
